@@ -17,6 +17,16 @@ FLOORS = {
               "inequality_rows": 5000, "cases[user-cost]": 20},
     "thorough": {"distinct_nontrivial": 3000, "identity_rows": 400000},
 }
+ANCHORS = [
+    "skchange.change_scores.from_cost.ChangeScore._evaluate",
+    "skchange.change_scores.cusum.cusum_score",
+    "skchange.anomaly_scores.from_cost.Saving._evaluate",
+    "skchange.anomaly_scores.from_cost.LocalAnomalyScore._evaluate",
+    "skchange.anomaly_scores.l2_saving.l2_saving",
+    "skchange.change_scores.from_cost.to_change_score",
+    "skchange.anomaly_scores.from_cost.to_saving",
+    "skchange.anomaly_scores.from_cost.to_local_anomaly_score",
+]
 LEVEL = "exploration"
 RULE = (
     "case = (adapter in {ChangeScore, Saving, LocalAnomalyScore} x cost in {L2, GaussianVar, "
